@@ -135,3 +135,17 @@ def replay_programs(run, rp):
         base["id"] = prog["id"].rsplit("/", 1)[0]
         progs = paired(base)
     return run_programs(run, progs, keep_pairs=True)
+
+
+def replay_any(run, rp):
+    """Re-run exactly the case of a replay file: a program, a recorded repository test or a helper call."""
+    item = rp["item"]
+    if isinstance(item, dict) and ("prog" in item or "suite" in item):
+        return replay_programs(run, rp)
+    if isinstance(item, dict) and "re" in item:
+        from ._util import replay_calls
+
+        return replay_calls(run, rp)
+    run.is_replay = True
+    run.notes.append("this replay file describes a model-level violation; re-run the check itself")
+    return None
